@@ -75,7 +75,7 @@ impl Monitor for C02 {
     }
     fn generate(&self, r: &mut Rng, _tier: Tier, _i: u64) -> C02Case {
         let (name, cfg) = pick_family(r, FAMILIES);
-        let (u, p) = gener::generate(r, &cfg);
+        let (name, (u, p)) = if r.chance(1, 30) { ("conflict-chain", gener::conflict_chain(r)) } else { (name, gener::generate(r, &cfg)) };
         let p = p.hard();
         let brute = name != "big";
         let mut variants = vec![];
